@@ -139,9 +139,9 @@ func (m *Machine) applyAvs(a *Action) (Outcome, error) {
 			// the form in which the precompile records a contract's address (the opt-in records are keyed by the string)
 			avs := m.identAddr(x.Target).Hex()
 			if a.Kind == "avsOptIn" {
-				return m.cosmos(from, &operatortypes.OptIntoAVSReq{FromAddress: from.Bech32(), AvsAddress: avs})
+				return m.cosmosAs(a, from, &operatortypes.OptIntoAVSReq{FromAddress: from.Bech32(), AvsAddress: avs})
 			}
-			return m.cosmos(from, &operatortypes.OptOutOfAVSReq{FromAddress: from.Bech32(), AvsAddress: avs})
+			return m.cosmosAs(a, from, &operatortypes.OptOutOfAVSReq{FromAddress: from.Bech32(), AvsAddress: avs})
 		}
 		if a.Kind == "avsOptIn" {
 			return fromCall(c.AvsOptIn(from, m.identAddr(x.Sender)))
@@ -189,17 +189,17 @@ func (m *Machine) applyAvs(a *Action) (Outcome, error) {
 				info.TaskResponse = taskResponseBytes(x.RespID, x.Num)
 			}
 		}
-		res, err := c.SubmitTaskResult(from, from.Bech32(), info)
+		o, err := m.cosmosAs(a, from, &avstypes.SubmitTaskResultReq{FromAddress: from.Bech32(), Info: info})
 		if err != nil {
 			return Outcome{}, err
 		}
-		if res.Code == 0 && info != nil && x.Stage == avstypes.TwoPhaseCommitOne {
+		if o.OK && info != nil && x.Stage == avstypes.TwoPhaseCommitOne {
 			if m.avsCommit == nil {
 				m.avsCommit = map[string]avsCommitRec{}
 			}
 			m.avsCommit[resKey(info.OperatorAddress, info.TaskContractAddress, info.TaskId)] = avsCommitRec{x.SigNum, x.SigID, x.SigMode, x.BlsKey}
 		}
-		return Outcome{OK: res.Code == 0, Included: res.Code == 0, Note: res.Log}, nil
+		return o, nil
 	case "avsChallenge":
 		taskHash := []byte{0xde, 0xad}
 		if t, err := c.App.AVSManagerKeeper.GetTaskInfo(c.Ctx(), fmt.Sprint(x.TaskID), m.identAddr(x.From).Hex()); err == nil && x.HashMode == 0 {
